@@ -136,6 +136,17 @@ Section FMap.
                              match snd tr with TDone outs => dump_elem (fst tr) outs s' | _ => Ok s' end)
               rs (Ok s).
 
+  (* _single_dump_single_output: `assert not isinstance(storage, StorageBase)`, then write the value *)
+  Fixpoint dump_single (new : env) (s : store_t) : result store_t :=
+    match new with
+    | [] => Ok s
+    | (o, v) :: t =>
+        match dict_get s o with
+        | Some (SVal _) => dump_single t (store_set s o (SVal (Some v)))
+        | _ => Err AssertionError
+        end
+    end.
+
   Definition post_func (rs : list (task * tres)) (st : mstate) (f : mfunc) : result mstate :=
     let mine := filter (same_func f) rs in
     if is_mapped f then
@@ -149,9 +160,8 @@ Section FMap.
       match mine with
       | [(_, TDone outs)] =>
           let new := combine (fouts f) outs in
-          Ok {| m_env := new ++ m_env st;
-                m_store := fold_left (fun s ov => store_set s (fst ov) (SVal (Some (snd ov)))) new (m_store st);
-                m_log := m_log st |}
+          do s1 <- dump_single new (m_store st);
+          Ok {| m_env := new ++ m_env st; m_store := s1; m_log := m_log st |}
       | _ => Err AssertionError
       end.
 
